@@ -237,7 +237,8 @@ def decorate(node: dict, item: dict, op: dict, deco: str, schemas: dict) -> None
                 if media.get("schema") == {"$ref": "#/components/schemas/R"}:
                     media["schema"] = copy.deepcopy(inline)
         return
-    ok = node["responses"]["200"]
+    # (two decorations on one operation may both rewrite the response table: the second one works on whatever is primary by then)
+    ok = node["responses"].get("200") or next(iter(node["responses"].values()))
     if deco == "resp_default_only":
         node["responses"] = {"default": ok}
     elif deco == "resp_wild_upper":
